@@ -51,10 +51,10 @@ pub uninterp spec fn inited() -> bool;
 pub mod init { use vstd::prelude::*; verus! {
     #[verifier::external_body] pub fn init() ensures super::inited() { unimplemented!() }   // trusted: OnceCell::get_or_init around the four Manager::init()
 } }
-pub struct InfixOpManager {}
-pub struct PrefixOpManager {}
-pub struct PostfixOpManager {}
-pub struct InnerFunctionManager {}
+#[verifier::external_body] pub struct InfixOpManager { x: u8 }     // opaque: an empty struct would make every handle equal, and a view that is a function of the handle could then never change
+#[verifier::external_body] pub struct PrefixOpManager { x: u8 }     // opaque: an empty struct would make every handle equal, and a view that is a function of the handle could then never change
+#[verifier::external_body] pub struct PostfixOpManager { x: u8 }     // opaque: an empty struct would make every handle equal, and a view that is a function of the handle could then never change
+#[verifier::external_body] pub struct InnerFunctionManager { x: u8 }     // opaque: an empty struct would make every handle equal, and a view that is a function of the handle could then never change
 impl InfixOpManager {
     #[verifier::external_body] pub fn vx_lock(&self) -> (r: &VxMap<InfixOpConfig>) ensures holds(r.map(), |k: Seq<char>| reg_cfg(k)) { unimplemented!() }
 }
